@@ -103,7 +103,17 @@ def run_case(case):
     act = case["action"]
     init_bits = case["init_bits"] & mask
     from vmon.simkit import decoy
-    if act in ("RW", "RW1C", "RW1S"):
+    shared_desc = False
+    if act in ("RW", "RW1C", "RW1S") and rng.random() < 0.4:
+        # the documented way: one csr.Field description, instantiated more than once (e.g. an array of channels);
+        # every instance must get the described init
+        fld = csr.Field(getattr(action, act), shape, init=init_value(desc, init_bits))
+        fld.create()
+        if rng.random() < 0.5:
+            fld.create()
+        dut = fld.create()
+        shared_desc = True
+    elif act in ("RW", "RW1C", "RW1S"):
         decoy(rng, lambda: getattr(action, act)(shape, init=init_value(desc, init_bits)))
         dut = getattr(action, act)(shape, init=init_value(desc, init_bits))
     else:
@@ -111,6 +121,8 @@ def run_case(case):
         dut = getattr(action, act)(shape)
     port = dut.port
     mon = Mon()
+    if shared_desc:
+        mon.count("actions_from_a_shared_field_description")
     st = {"storage": init_bits, "nontrivial": False, "compared": 0}
 
     def get(ctx, sig):
